@@ -3,11 +3,12 @@ from ..sqlgen import *  # noqa
 from ..qcheck import mk_case, run_cases, go_req
 from ..common import dec_val, run_go, canon, enc_val
 
+FACTS = True
 MODULE = "Genql.Properties.C08"
-LEAN_TARGETS = [MODULE, "Genql.Properties.NestedModel"]
+LEAN_TARGETS = [MODULE, "Genql.Properties.NestedModel", "Genql.Obligations.C08"]
 THEOREMS = ["Genql.C08." + t for t in [
     "levelElem_arr", "nested_exec", "flat_is_base_case", "nested_exec_depth", "mix_concat", "mix_concat_all",
-    "nested_flat_levels", "nested_select_model"]]
+    "nested_flat_levels", "nested_select_model"]] + ["Genql.Obligations.C08." + t for t in ["copy_inherits_clauses", "copy_own_state", "copy_query_lines"]]
 TRUSTED = ["sqlparser", "the `mix=>` top-level function is compared on the implementation (metamorphic) and modelled in C09"]
 RULE = ("documents with arrays of arrays of objects (ragged, empty inner arrays, depth 2-3) x WHERE + select lists with "
         "non-idempotent projections (a+1 AS a) so that a double application is visible; model correspondence, plus on the "
